@@ -383,10 +383,18 @@ and gen_group r m e t size =
           forward inside the group); the values are later read under further binders like any other variable *)
        let da1 = (a1, tann (), src_of_ty target) and da2 = (a2, tann (), (if Rng.bool r then SVar a1 else src_of_ty target)) in
        let dv1 = (v1, Some (SVar a1), d1) and dv2 = (v2, Some (SVar a2), SVar v1) in
-       (match Rng.int r 6 with
-        | 0 -> defs := da2 :: da1 :: dv2 :: dv1 :: !defs
-        | 1 -> defs := da2 :: dv2 :: da1 :: dv1 :: !defs
-        | _ -> defs := dv2 :: dv1 :: da2 :: da1 :: !defs);
+       let forward = (match Rng.int r 6 with
+        | 0 -> defs := da2 :: da1 :: dv2 :: dv1 :: !defs; true
+        | 1 -> defs := da2 :: dv2 :: da1 :: dv1 :: !defs; true
+        | _ -> defs := dv2 :: dv1 :: da2 :: da1 :: !defs; false) in
+       (* the value read under a TYPE binder that is instantiated with another type: if the value's type were
+          captured by that binder the group would get a wrong but well-formed type (unannotated on purpose) *)
+       if forward && Rng.bool r then begin
+         let w = fresh_name e "v" and b = fresh_name e "t" in
+         let other = if target = Bool then SInt else SBool in
+         defs := (w, None, SApp (SLam (b, false, Some SType, SVar v1), other)) :: !defs;
+         e' := { !e' with vars = (w, target) :: !e'.vars }
+       end;
        e' := { !e' with aliases = (a2, target) :: (a1, target) :: !e'.aliases; vars = (v2, target) :: (v1, target) :: !e'.vars }
      | _ ->
        let x = fresh_name e "v" in
